@@ -81,14 +81,14 @@ EnvFetch(rho, name, nilsafe) == IF name \in DOMAIN rho THEN rho[name]
                                 ELSE IF nilsafe THEN Nil ELSE Err("nil")
 
 (* reflect.Call on an environment function: dynamic argument check, log, apply *)
-VMCall(s, name, args) ==
+VMCall(s, name, args, rho) ==
   IF name \notin DOMAIN FnSig THEN Trap(s, "nil")
   ELSE LET sig == FnSig[name]
            bad == (~sig.var /\ Len(args) # Len(sig.ps))
                   \/ \E i \in 1..Len(args) : ~DynAssignable(args[i], sig.ps[IF sig.var THEN 1 ELSE i])
        IN IF bad THEN Trap(s, "type")
           ELSE IF name = "NilFn" THEN Trap(s, "nil")
-          ELSE PushR([s EXCEPT !.calls = Append(@, [fn |-> name, args |-> args])], FnApply(name, args))
+          ELSE PushR([s EXCEPT !.calls = Append(@, [fn |-> name, args |-> args])], FnApply(name, args, rho))
 
 VMMethod(s, recv, name, args, nilsafe) ==
   IF recv.t = "nil" THEN (IF nilsafe THEN PushV(s, Nil) ELSE Trap(s, "nil"))
@@ -169,7 +169,7 @@ Step(s, p, rho, dv) ==
     [] nm \in {"OpCall", "OpCallFast"} ->
          IF k.t # "call" THEN Trap(s3, "badconst")
          ELSE IF Depth(s) < k.size THEN Underflow(s3)
-         ELSE VMCall(Drop(s3, k.size), k.name, TopArgs(s, k.size))
+         ELSE VMCall(Drop(s3, k.size), k.name, TopArgs(s, k.size), rho)
     [] nm \in {"OpMethod", "OpMethodNilSafe"} ->
          IF k.t # "call" THEN Trap(s3, "badconst")
          ELSE IF Depth(s) < k.size + 1 THEN Underflow(s3)
